@@ -262,6 +262,16 @@ func TestC16(t *testing.T) {
 					var res ech.ResolveResult
 					rerr := guard(func() error { var e error; res, e = r.Resolve(ctx, name); return e })
 					cancel()
+					if rerr == nil {
+						// the caller does with the result what results are for: enumerate targets for
+						// one address family or another; that leaves the resolver's cache alone
+						nw := rapid.SampledFrom([]string{"tcp", "tcp4", "tcp6", "udp4", "udp6"}).Draw(t, "targets_network")
+						guard(func() error {
+							for range res.Targets(nw) {
+							}
+							return nil
+						})
+					}
 					clockMu.Lock()
 					step = 0
 					now = mnow // equal already when the queries sent are the predicted ones
